@@ -15,7 +15,7 @@ BIN="$(mktemp -d)/gotrans"
 (cd "$VERIF/harness" && go build -tags verif -o "$BIN" ./cmd/gotrans) || { echo "gotrans does not build"; exit 2; }
 rm -rf "$LEAN"; cp -r "$VERIF/lean" "$LEAN"
 GEN="$LEAN/AtreeModel/Gen"
-MODS="AtreeProofs.Props.TransStorage AtreeProofs.Props.TransStorageBasic"
+MODS="AtreeProofs.Props.TransStorage AtreeProofs.Props.TransStorageBasic AtreeProofs.Props.TransStorageLedger"
 
 run() { # name kind patch-id-or-empty [file sed-expression]
   local name="$1" kind="$2" patch="$3" file="${4:-}" expr="${5:-}"
@@ -34,7 +34,7 @@ run() { # name kind patch-id-or-empty [file sed-expression]
   local thms=""
   for loc in $failed; do
     f="${loc%%:*}"; l="${loc##*:}"
-    t="$(head -n "$l" "$LEAN/$f" | grep -E '^(theorem|example)' | tail -1 | awk '{print $2}')"
+    t="$(head -n "$l" "$LEAN/$f" | grep -E '^(theorem|example|def)' | tail -1 | awk '{print $2}')"
     thms="$thms $t"
   done
   thms="$(echo $thms | tr ' ' '\n' | sort -u | tr '\n' ' ')"
@@ -63,6 +63,14 @@ run p002 semantic p002      # DeltasSizeWithoutTempAddresses: temp slabs counted
 run m132 semantic m132      # DeltasSizeWithoutTempAddresses: || -> && (nil dereference)
 run n023 semantic n023      # BasicSlabStorage.Remove: tombstone instead of delete
 run p005 semantic p005      # BasicSlabStorage.Retrieve: found from nil test
+run n001 semantic n001      # LedgerBaseStorage.Retrieve: ledger error not wrapped
+run n003 semantic n003      # LedgerBaseStorage.Remove: ledger error not wrapped
+run m005 semantic m005      # LedgerBaseStorage.GenerateSlabID: off by one index
+run p006 semantic p006      # LedgerBaseStorage.Retrieve: bytesRetrieved not counted
+run p007 semantic p007      # bytesRetrieved = instead of +=
+run p009 semantic p009      # Retrieve counts into bytesStored
+run p010 semantic p010      # ResetReporter: bytesStored kept
+run p011 semantic p011      # BytesRetrieved returns bytesStored
 run m051 equivalent m051    # sort: index <=   (same order on distinct keys; the less function is no longer SlabID.lt)
 # hand-made: state left behind by a failing commit, aliasing
 run commit-cache-before-store semantic "" storage.go '0,/\t\terr = s\.baseStorage\.Store\(id, data\)/s//\t\ts.cache[id] = slab\n\t\terr = s.baseStorage.Store(id, data)/'
@@ -73,6 +81,7 @@ run cosmetic-rename-local  cosmetic "" storage.go '/^func \(s \*PersistentSlabSt
 run cosmetic-flip-compare  cosmetic "" storage.go 's/if id == SlabIDUndefined \{/if SlabIDUndefined == id {/'
 run cosmetic-recv-rename   cosmetic "" storage.go '/^func \(s \*PersistentSlabStorage\) Store\(/,/^}/{s/\(s \*Persistent/(st *Persistent/; s/\bs\.deltas/st.deltas/}'
 run cosmetic-extra-local   cosmetic "" storage.go 's/^\tif id == SlabIDUndefined \{$/\tundefined := id == SlabIDUndefined\n\tif undefined {/'
+run cosmetic-ledger-local   cosmetic "" storage.go 's/^\ts\.bytesRetrieved \+= len\(v\)$/\tn := len(v)\n\ts.bytesRetrieved = s.bytesRetrieved + n/'
 run cosmetic-else-branch   cosmetic "" storage.go '/^func \(s \*PersistentSlabStorage\) RetrieveIfLoaded\(/,/^}/{s/^\t\/\/ Don.t fetch from base storage\.$/\tvar none Slab/; s/^\treturn nil$/\treturn none/}'
 
 rm -rf "$MUT" "$LEAN"
